@@ -29,7 +29,7 @@ type c06Op struct {
 	LJH22   bool   `json:"ljh22,omitempty"`
 	LJH3    bool   `json:"ljh3,omitempty"`
 	OFF     bool   `json:"off,omitempty"`
-	Path    int    `json:"path,omitempty"` // 0 base path, 1 explicit second directory, 2 unusable (parent is a regular file)
+	Path    int    `json:"path,omitempty"` // 0 base path, 1 explicit second directory, 2 unusable (parent is a regular file), 3 contains a per-cent sign, 4 so long that the run directory fits into PATH_MAX but the experiment-state file name does not
 	Chan    int    `json:"chan,omitempty"` // proj
 	Load    bool   `json:"load,omitempty"` // proj
 	Nsamp   int    `json:"nsamp,omitempty"` // lengths: ConfigurePulseLengths through the RPC layer (refused while writing)
@@ -68,6 +68,8 @@ func c06Gen(t *rapid.T) c06Case {
 				op.Path = 2
 			case 1, 2:
 				op.Path = 1
+			case 3:
+				op.Path = rapid.SampledFrom([]int{3, 4}).Draw(t, "oddpath")
 			}
 			return op
 		case k < 12:
@@ -378,6 +380,17 @@ func c06Run1(c c06Case) (v vVerdict) {
 				cfg.Path = base2
 			case 2:
 				cfg.Path = filepath.Join(blocker, "sub")
+			case 3:
+				cfg.Path = filepath.Join(base2, "gain100%s")
+			case 4:
+				long := filepath.Join(base2, "L")
+				for len(long) < 4050-201 {
+					long = filepath.Join(long, strings.Repeat("x", 200))
+				}
+				if pad := 4050 - len(long) - 1; pad > 0 {
+					long = filepath.Join(long, strings.Repeat("y", pad))
+				}
+				cfg.Path = long
 			}
 			preDirs := map[string]bool{}
 			for _, b := range []string{base, base2} {
